@@ -10,7 +10,8 @@ RULE = (
     "occurs in no trace, traces whose spans carry differing workflow names, "
     "traces placed inside / outside / straddling / touching the buffered "
     "window; time_buffer in {0,1,2,5} minutes; drawn ingestion order and "
-    "batch size; a third of the stores write the root's parent id as \"\"; a "
+    "batch size; span ids plain or, in a third of the stores, composite "
+    "with punctuation; a third of the stores write the root's parent id as \"\"; a "
     "third are filled by two runs against one sqlite file (window of a run = "
     "what that run ingested, so traces of the earlier run may fall outside). Run: the real otel_to_pv(ingest_data=True) with only the "
     "data source replaced by the generated span list (so the real cleaning "
